@@ -416,6 +416,13 @@ func execC06(p *drv.Plan) *Out {
 					}
 					if pinned {
 						sh.add(&sh.pinnedReq, 1)
+						if async && err == nil {
+							// the request was accepted and is carried out once the
+							// exporters have gone: from now on nobody may start
+							// reading these versions (the application asked for
+							// their deletion), whatever the pruner's progress
+							sh.store(&sh.floor, n+1)
+						}
 					}
 				}
 				return nil
